@@ -121,6 +121,9 @@ func applyKnobs(r *rng, s *ReSpec) {
 	if r.chance(1, 6) {
 		s.NoBitmap = true
 	}
+	if r.chance(1, 5) {
+		s.CodeGen = true
+	}
 }
 
 // genOp draws one ordinary (untimed) operation on spec index re.
